@@ -64,7 +64,8 @@ JoinCmds(y, i) == IF i > Len(NodeSeq) THEN <<>>
 DirectCmds == <<[c |-> "election-win", a |-> "self"]>> \o
               [i \in 1..(Len(NodeSeq) - 1) |-> [c |-> "secoundary", a |-> NodeSeq[i + 1]]]
 
-InitS == [role |-> [n \in Nodes |-> IF Formation = "join" \/ n = NodeSeq[1] THEN "Primary" ELSE "StartingUp"],
+InitS == [role |-> [n \in Nodes |-> IF (Formation = "join" /\ Cardinality(Nodes) > 1) \/ (Formation = "direct" /\ n = NodeSeq[1])
+                                     THEN "Primary" ELSE "StartingUp"],     \* (a node nobody asked to join is still starting up)
           pid |-> Pid,                          \* start time of the running incarnation of every node
           alive |-> [n \in Nodes |-> TRUE],
           supdead |-> [n \in Nodes |-> FALSE],
